@@ -191,6 +191,8 @@ static struct runtime* rt(void) { return containerof(g_rt, struct runtime, handl
 static unsigned g_starts_at_start[MOCK_NDEV];
 static int g_dev_in_use[MOCK_NDEV];
 static int g_applied_cam[2] = { -1, -1 }, g_applied_sto[2] = { -1, -1 }; // what the last acquire_configure was given
+static int g_new_cam[2] = { -1, -1 }, g_new_sto[2] = { -1, -1 }, g_new_avg[2], g_new_type[2]; // prepared by `cfg`, applied by `configure`
+static uint64_t g_new_n[2];
 static int g_have_start_snapshot;
 
 // C07 / C08: an acquisition starts the devices of the streams that are configured *now*, nothing left over from an earlier
@@ -292,15 +294,19 @@ static void check_region_unchanged(int s, const char* when)
         oracle("monitor-region-changed-while-mapped stream=%d (%s)", s, when);
 }
 
+static int g_mon_ever[2];   // the client has mapped this stream before (in this runtime's life)
 static void do_map(int s)
 {
     struct VideoFrame *beg = 0, *end = 0;
     int was_unregistered = rt()->video[s].monitor.reader.id == 0;
     enum AcquireStatusCode rc = acquire_map_read(g_rt, (uint32_t)s, &beg, &end);
-    if (was_unregistered && rt()->video[s].monitor.reader.id != 0) g_mon_late[s] = g_nfinished >= 1;
+    // (a reader that registers for the first time after an acquisition has finished is the known C06 finding; a client that had been
+    // monitoring this stream before and finds its reader forgotten is not)
+    if (was_unregistered && rt()->video[s].monitor.reader.id != 0) g_mon_late[s] = g_nfinished >= 1 && !g_mon_ever[s];
     printf("API map %d -> %s", s, rc == AcquireStatus_Ok ? "ok" : "err");
     if (rc != AcquireStatus_Ok) { printf("\n"); if (!g_mon_beg[s]) oracle("map-read-failed stream=%d", s); check_region_unchanged(s, "refused map"); return; }
     g_mon_beg[s] = beg; g_mon_end[s] = end;
+    g_mon_ever[s] = 1;
     g_mon_sum[s] = region_sum(beg, end); g_mon_map_epoch[s] = g_mon_epoch;
     int cam = g_cfg_cam[s];
     printf(" bytes=%zu frames=", (size_t)((uint8_t*)end - (uint8_t*)beg));
@@ -369,10 +375,10 @@ static void exec_client(const char* op)
         int s = atoi(op + 4);
         if (s < 0 || s > 1) return;
         struct aq_properties_video_s* pv = &g_props.video[s];
-        g_cfg_cam[s] = kv(op, "cam", v, sizeof v) && v[0] != '-' ? atoi(v) : -1;
-        g_cfg_sto[s] = kv(op, "sto", v, sizeof v) && v[0] != '-' ? atoi(v) : -1;
-        select_dev(DeviceKind_Camera, g_cfg_cam[s], &pv->camera.identifier);
-        select_dev(DeviceKind_Storage, g_cfg_sto[s], &pv->storage.identifier);
+        g_new_cam[s] = kv(op, "cam", v, sizeof v) && v[0] != '-' ? atoi(v) : -1;
+        g_new_sto[s] = kv(op, "sto", v, sizeof v) && v[0] != '-' ? atoi(v) : -1;
+        select_dev(DeviceKind_Camera, g_new_cam[s], &pv->camera.identifier);
+        select_dev(DeviceKind_Storage, g_new_sto[s], &pv->storage.identifier);
         pv->camera.settings.shape.x = kv(op, "w", v, sizeof v) ? (uint32_t)atoi(v) : 4;
         pv->camera.settings.shape.y = kv(op, "h", v, sizeof v) ? (uint32_t)atoi(v) : 4;
         pv->camera.settings.pixel_type = kv(op, "type", v, sizeof v) ? (enum SampleType)atoi(v) : SampleType_u8;
@@ -382,11 +388,17 @@ static void exec_client(const char* op)
         pv->max_frame_count = kv(op, "n", v, sizeof v) ? (uint64_t)atoll(v) : 4;
         pv->frame_average_count = kv(op, "avg", v, sizeof v) ? (uint32_t)atoi(v) : 0;
         pv->storage.write_delay_ms = kv(op, "delay", v, sizeof v) ? (float)atof(v) : 0.0f;
-        g_cfg_n[s] = pv->max_frame_count; g_cfg_avg[s] = (int)pv->frame_average_count;
-        if (g_cfg_cam[s] >= 0) g_cam_type[g_cfg_cam[s]] = (int)pv->camera.settings.pixel_type;
+        g_new_n[s] = pv->max_frame_count; g_new_avg[s] = (int)pv->frame_average_count;
+        g_new_type[s] = (int)pv->camera.settings.pixel_type;
     } else if (!strcmp(op, "configure")) {
-        if (acquire_get_state(g_rt) == DeviceState_Running) { g_cfg_while_running = 1; g_run_n[0] = g_cfg_n[0]; g_run_n[1] = g_cfg_n[1]; }
-        for (int s = 0; s < 2; ++s) { g_applied_cam[s] = g_cfg_cam[s]; g_applied_sto[s] = g_cfg_sto[s]; }
+        const int reconfigured_while_running = acquire_get_state(g_rt) == DeviceState_Running;
+        // what the oracles expect follows what acquire_configure was given, not what the client has merely prepared
+        for (int s = 0; s < 2; ++s) {
+            g_cfg_cam[s] = g_new_cam[s]; g_cfg_sto[s] = g_new_sto[s]; g_cfg_n[s] = g_new_n[s]; g_cfg_avg[s] = g_new_avg[s];
+            if (g_cfg_cam[s] >= 0) g_cam_type[g_cfg_cam[s]] = g_new_type[s];
+            g_applied_cam[s] = g_cfg_cam[s]; g_applied_sto[s] = g_cfg_sto[s];
+        }
+        if (reconfigured_while_running) { g_cfg_while_running = 1; g_run_n[0] = g_cfg_n[0]; g_run_n[1] = g_cfg_n[1]; }
         enum AcquireStatusCode rc = acquire_configure(g_rt, &g_props);
         printf("API configure -> %s valid=%d state=%s\n", rc == AcquireStatus_Ok ? "ok" : "err", (int)rt()->valid_video_streams,
                device_state_as_string(acquire_get_state(g_rt)));
@@ -656,6 +668,7 @@ static void run_child(char* spec)
         else if (sscanf(g_faults[i], "stostartfail %d %d", &d, &c) == 2) g_mock.sto_start_fails[d] = c;
         else if (sscanf(g_faults[i], "stostopawait %d", &d) == 1) g_mock.sto_stop_await[d] = 1;
         else if (sscanf(g_faults[i], "stosetfail %d %d", &d, &c) == 2) g_mock.sto_set_fails[d] = c;
+        else if (sscanf(g_faults[i], "stoincomplete %d", &d) == 1) g_mock.sto_incomplete[d] = 1;
         else if (!strncmp(g_faults[i], "stoconsumed", 11)) g_mock.sto_reports_consumed = 1;
     }
     detsched_init(&cfg);
@@ -679,7 +692,7 @@ int main(void)
         else if (!strncmp(p, "hang ", 5)) g_hang_rounds = atoi(p + 5);
         else if (!strncmp(p, "cosim ", 6)) g_cosim = atoi(p + 6);
         else if (!strncmp(p, "fault ", 6)) { if (g_nfaults < 16) { snprintf(g_faults[g_nfaults], 64, "%s", p + 6); g_nfaults++; } }
-        else if (!strncmp(p, "camempty ", 9) || !strncmp(p, "camstartfail ", 13) || !strncmp(p, "openfail ", 9) || !strncmp(p, "descfail ", 9) || !strncmp(p, "stostartfail ", 13) || !strncmp(p, "stostopawait ", 13) || !strncmp(p, "stosetfail ", 11) || !strncmp(p, "stoconsumed", 11)) { if (g_nfaults < 16) { snprintf(g_faults[g_nfaults], 64, "%s", p); g_nfaults++; } }
+        else if (!strncmp(p, "camempty ", 9) || !strncmp(p, "camstartfail ", 13) || !strncmp(p, "openfail ", 9) || !strncmp(p, "descfail ", 9) || !strncmp(p, "stostartfail ", 13) || !strncmp(p, "stostopawait ", 13) || !strncmp(p, "stosetfail ", 11) || !strncmp(p, "stoconsumed", 11) || !strncmp(p, "stoincomplete ", 14)) { if (g_nfaults < 16) { snprintf(g_faults[g_nfaults], 64, "%s", p); g_nfaults++; } }
         else if (!strncmp(p, "reset", 5)) { g_nprog = 0; g_nfaults = 0; g_cosim = 0; }
         else if (!strncmp(p, "prog ", 5)) {
             char* save = 0;
